@@ -1,4 +1,5 @@
 import ArroyModel.Check
+import ArroyModel.Upgrade
 /-! The trace driver (PROTOCOL.md): runs the model on the operations of a trace written by the
 Rust harness, compares every answer and every dump, and evaluates the predicates of
 `Check.lean` on the implementation's own data. -/
@@ -109,6 +110,20 @@ structure DState where
   maxItems : Nat := 0
   maxDepth : Nat := 0
   nRecords : Nat := 0
+  /-- raw pairs put in the open transaction (`rawput`) -/
+  rawPending : Array (Bytes × Bytes) := #[]
+  /-- a committed old-layout (v0.4) database, kept as raw pairs -/
+  oldLayout : Option (List (Bytes × Bytes)) := none
+  /-- the dump an upgraded database must reproduce -/
+  expectAfterUpgrade : Option (List (Bytes × Bytes)) := none
+  inExpect : Bool := false
+  /-- committed versions of the case (index = number of commits so far), for reader snapshots -/
+  versions : Array Store := #[[]]
+  snapshots : List (Nat × List (Bytes × Bytes)) := []
+  inSnapshot : Option (Nat × Nat × Nat) := none
+  committing : Bool := false
+  nSnapshots : Nat := 0
+  nRecovered : Nat := 0
   nTolChecked : Nat := 0
   caseBuilds : Nat := 0
   caseSplits : Nat := 0
@@ -384,9 +399,10 @@ def handleDump (d : DState) : DState := Id.run do
       d := d.prop "C16" s!"value under {toHex kb} re-encodes differently: {toHex (encodeVal m v)} vs {toHex vb}"
   if d.expectRecovered then
     d := { d with expectRecovered := false }
-    if !(storeEq d.committed impl) then
+    let inflight := d.committing && (match d.txn with | some t => storeEq t impl | none => false)
+    if !(storeEq d.committed impl) && !inflight then
       d := d.prop "C09" s!"recovered state differs from the last committed model state: {firstDiff d.committed impl}"
-    d := { d with committed := impl, txn := none }
+    d := { d with committed := impl, txn := none, committing := false, nRecovered := d.nRecovered + 1 }
   else if d.resync then
     match d.preBuild with
     | some (pre, index, opts) =>
@@ -402,6 +418,15 @@ def handleDump (d : DState) : DState := Id.run do
     if !(storeEq model impl) then
       d := d.diff "dump" (firstDiff model impl) ""
       d := d.setView impl
+  -- C17: once upgraded, the database must be the original one (version records are added by 0.5 -> 0.6 only)
+  match d.expectAfterUpgrade with
+  | some orig =>
+    if d.oldLayout.isNone then
+      let (origSt, _) := decodeDump d orig
+      let noVer (st : Store) := st.filter fun kv => !(kv.1.mode == versionKeyMode && kv.1.item == versionKeyItem)
+      if !(storeEq (noVer origSt) (noVer impl)) then
+        d := d.prop "C17" s!"upgraded database differs from the original: {firstDiff (noVer origSt) (noVer impl)}"
+  | none => pure ()
   d := storePredicates d impl
   return d
 
@@ -590,6 +615,13 @@ def handleOp (d : DState) (p : Pending) (res : List String) : DState := Id.run d
     let implOk := res.headD "" == "ok"
     let implPolls := (kv? res "polls") >>= parseNat?
     let unordered := p.evs.toList.any (· == ["ev", "unordered"])
+    -- an unusable temp directory: the build fails with an I/O error as soon as it needs a scratch file,
+    -- i.e. on every path but the single-bucket shortcut
+    let tmpBad := match kv? rest "tmpdir" with | some t => t != "-" | none => false
+    if tmpBad && !(fits cap (s.keysOf c.index modeItem).length) && args.cancel.isNone then
+      d := { d with nCancelled := d.nCancelled + 1 }
+      d := if res.take 2 == ["err", "io"] then d else d.diff "build with an unusable temp directory" "err io" implStr
+      return { d with resync := true, preBuild := none }
     if unordered then
       d := { d with nBuildsLoose := d.nBuildsLoose + 1 }
       if implOk then
@@ -747,11 +779,101 @@ def handleKeySeen (d : DState) (toks : List String) : DState :=
     | _, _, _ => d.diff "unparsable keyseen" "" (" ".intercalate toks)
   | _ => d.diff "unparsable keyseen" "" (" ".intercalate toks)
 
+
+/-! ### raw loading, upgrades, reader snapshots -/
+
+def decodeOldPair (kb vb : Bytes) : Option (Key × Val) :=
+  if kb.length < 7 then none else
+  let k : Key := ⟨ofBe (kb.take 2), kb.getD 2 0, ofBe ((kb.drop 3).take 4)⟩
+  let v : Option Val :=
+    if k.mode = oldModeItem ∨ k.mode = oldModeTree then decodeNode .cosine vb
+    else if k.mode = oldModeMetadata ∧ k.item = 0 then decodeMeta vb
+    else if k.mode = oldModeMetadata ∧ k.item = 1 then (Roaring.decode vb).map fun p => .desc p.1
+    else none
+  v.map fun v => (k, v)
+
+def handleCommit (d : DState) : DState := Id.run do
+  let mut d := { d with step := d.step + 1, committing := false }
+  if d.rawPending.size > 0 then
+    let pairs := d.rawPending.toList
+    d := { d with rawPending := #[] }
+    if d.expectAfterUpgrade.isSome && d.oldLayout.isNone then
+      -- an old-layout database: opaque until the upgrade runs
+      d := { d with oldLayout := some pairs, committed := [], txn := none }
+    else
+      let (st, errs) := decodeDump d pairs
+      d := d.props "C16" errs
+      -- raw pairs are applied on top of the transaction's view
+      let merged := st.foldl (fun acc kv => Store.put acc kv.1 kv.2) d.view
+      d := { d with committed := merged, txn := none }
+  else
+    d := { d with committed := d.view, txn := none }
+  return { d with versions := d.versions.push d.committed }
+
+def handleSnapshot (d : DState) : DState := Id.run do
+  let some (rid, lo, hi) := d.inSnapshot | return d.diff "endsnapshot without snapshot" "" ""
+  let kvs := d.dumpKV.toList
+  let mut d := { d with inSnapshot := none, dumpKV := #[], nSnapshots := d.nSnapshots + 1 }
+  match d.snapshots.find? (·.1 == rid) with
+  | some (_, prev) =>
+    if prev != kvs then d := d.prop "C08" s!"read transaction {rid} saw two different states"
+  | none => d := { d with snapshots := (rid, kvs) :: d.snapshots }
+  let (snap, _) := decodeDump d kvs
+  let candidates := (List.range (hi + 1)).filter (· ≥ lo)
+  let hit := candidates.any fun v => match d.versions[v]? with | some st => storeEq st snap | none => false
+  if !hit then
+    let anyVersion := (List.range d.versions.size).find? fun v => match d.versions[v]? with | some st => storeEq st snap | none => false
+    d := d.prop "C08" (match anyVersion with
+      | some v => s!"read transaction {rid} opened between commits {lo} and {hi} sees version {v}"
+      | none => s!"read transaction {rid} (commits {lo}..{hi}) sees a state that is no committed version: {firstDiff ((d.versions[hi]?).getD []) snap}")
+  d := storePredicates d snap
+  return d
+
+
+def handleRaw (d : DState) (toks res : List String) : DState := Id.run do
+  let mut d := { d with step := d.step + 1, nOps := d.nOps + 1 }
+  let implStr := " ".intercalate res
+  match toks with
+  | ["rawput", k, v] =>
+    match ofHex k, ofHex v with
+    | some kb, some vb =>
+      if implStr != "ok" then d := d.diff "rawput" "ok" implStr
+      return { d with rawPending := d.rawPending.push (kb, vb) }
+    | _, _ => return d.diff "unparsable rawput" "" (" ".intercalate toks)
+  | ["upgrade04to05"] =>
+    let some pairs := d.oldLayout | return d.diff "upgrade04to05 without an old-layout database" "" ""
+    match pairs.mapM fun (kb, vb) => decodeOldPair kb vb with
+    | none => return d.diff "old-layout database does not decode" "" ""
+    | some old =>
+      match Upgrade.up04to05 old with
+      | .error e => return if implStr.startsWith "err" || implStr.startsWith "panic" then d else d.diff "upgrade04to05" (reprStr e) implStr
+      | .ok st =>
+        if implStr != "ok" then d := d.diff "upgrade04to05" "ok" implStr
+        -- every index of an upgraded database uses the cosine metric
+        for (k, v) in st do
+          match v with
+          | .metadata _ dims _ _ => d := d.setInfo k.index { metric := .cosine, dims }
+          | _ => pure ()
+        -- the upgraded database must be the original one minus the version records (C17)
+        match d.expectAfterUpgrade with
+        | some orig =>
+          let (origSt, _) := decodeDump d orig
+          let want := origSt.filter fun kv => !(kv.1.mode == versionKeyMode && kv.1.item == versionKeyItem)
+          if !(storeEq want st) then
+            d := d.diff "model upgrade of the downgraded database vs the original" (firstDiff want st) ""
+        | none => pure ()
+        return { d with txn := some st, oldLayout := none }
+  | ["upgrade05to06", _m] =>
+    let st := Upgrade.stamp05to06 d.committed d.view
+    if implStr != "ok" then d := d.diff "upgrade05to06" "ok" implStr
+    return d.setView st
+  | _ => return d.diff "unsupported raw op" "" (" ".intercalate toks)
+
 /-! ### the line loop -/
 
 def opKeywords : List String :=
   ["add", "append", "del", "clear", "prepare", "build", "needbuild", "open", "get", "contains", "isempty", "iter",
-   "rget", "rcontains", "risempty", "riter", "ritemids", "nns", "kern", "dist", "bq"]
+   "rget", "rcontains", "risempty", "riter", "ritemids", "nns", "kern", "dist", "bq", "rawput", "rawdel", "upgrade04to05", "upgrade05to06"]
 
 def step (d : DState) (line : String) : DState :=
   let line := line.trimAscii.toString
@@ -771,12 +893,13 @@ def step (d : DState) (line : String) : DState :=
   | "case" :: n :: _ =>
     { d with caseId := (parseNat? n).getD 0, step := 0, committed := [], txn := none, infos := [], pending := none,
              resync := false, preBuild := none, past := [], refs := [], caseFailures := 0, expectRecovered := false,
-             caseBuilds := 0, caseSplits := 0, caseQueries := 0 }
+             caseBuilds := 0, caseSplits := 0, caseQueries := 0, rawPending := #[], oldLayout := none,
+             expectAfterUpgrade := none, inExpect := false, versions := #[[]], snapshots := [], inSnapshot := none, committing := false }
   | "host" :: rest =>
     let flag (k : String) := (kv? rest k) == some "1"
     { d with host := { avx := flag "avx", fma := flag "fma", sse := flag "sse" } }
   | ["begin"] => { d with txn := some d.committed, step := d.step + 1, infosAtBegin := d.infos }
-  | ["commit"] => { d with committed := d.view, txn := none, step := d.step + 1 }
+  | ["commit"] => handleCommit d
   | ["abort"] =>
     -- what `prepare` and the builds of this transaction changed goes back with it
     let infos := d.infos.map fun (i, info) =>
@@ -785,6 +908,27 @@ def step (d : DState) (line : String) : DState :=
       | none => (i, { info with capHist := none })
     { d with txn := none, step := d.step + 1, resync := false, preBuild := none, past := [], infos := infos }
   | ["endcase"] => if d.caseFailures == 0 then d.emit s!"CASE {d.caseId} ok steps={d.step} builds={d.caseBuilds} splits={d.caseSplits} queries={d.caseQueries}" else d.emit s!"CASE {d.caseId} FAILED failures={d.caseFailures}"
+  | ["expect-after-upgrade"] => { d with inExpect := true, dumpKV := #[] }
+  | ["endexpect"] => { d with inExpect := false, expectAfterUpgrade := some d.dumpKV.toList, dumpKV := #[] }
+  | "index" :: i :: m :: dm :: _ =>
+    match parseNat? i, parseMetric? m, parseNat? dm with
+    | some index, some metric, some dims => d.setInfo index { metric, dims }
+    | _, _, _ => d.diff "unparsable index record" "" line
+  | "snapshot" :: rest =>
+    match (kv? rest "rid") >>= parseNat?, (kv? rest "lo") >>= parseNat?, (kv? rest "hi") >>= parseNat? with
+    | some rid, some lo, some hi => { d with inSnapshot := some (rid, lo, hi), dumpKV := #[] }
+    | _, _, _ => d.diff "unparsable snapshot record" "" line
+  | ["endsnapshot"] => handleSnapshot d
+  | "leftover" :: path => d.prop "C09" s!"file left behind after the crash: {" ".intercalate path}"
+  | "fdcheck" :: rest =>
+    match (kv? rest "fd_before") >>= parseNat?, (kv? rest "fd_after") >>= parseNat?, (kv? rest "tmpfiles") >>= parseNat? with
+    | some a, some b, some t =>
+      let d := { d with nRecords := d.nRecords + 1 }
+      let d := if b > a then d.prop "C10" s!"open file descriptors grew from {a} to {b} over the builds" else d
+      if t > 0 then d.prop "C10" s!"{t} temporary files left behind" else d
+    | _, _, _ => d.diff "unparsable fdcheck record" "" line
+  | "fixture-mismatch" :: rest => d.prop "C16" s!"a recorded answer of the golden database changed: {" ".intercalate rest}"
+  | ["note", "committing"] => { d with committing := true }
   | "note" :: _ => d
   | ["expect-recovered"] => { d with expectRecovered := true }
   | "ev" :: _ =>
@@ -796,6 +940,7 @@ def step (d : DState) (line : String) : DState :=
     match d.pending with
     | some p =>
       if ["kern", "dist", "bq"].contains (p.toks.headD "") then handleKern { d with pending := none } p.toks res
+      else if ["rawput", "rawdel", "upgrade04to05", "upgrade05to06"].contains (p.toks.headD "") then handleRaw { d with pending := none } p.toks res
       else handleOp { d with pending := none } p res
     | none => d.diff "result without an operation" "" line
   | kw :: _ =>
@@ -804,7 +949,7 @@ def step (d : DState) (line : String) : DState :=
   | [] => d
 
 def statsLine (d : DState) : String :=
-  s!"STAT records={d.nRecords} tolerance_checked={d.nTolChecked} ops={d.nOps} builds={d.nBuilds} builds_replayed={d.nBuildsReplayed} builds_loose={d.nBuildsLoose} cancelled_or_failed={d.nCancelled} dumps={d.nDumps} queries={d.nQueries} exact_checked={d.nExact} monotone_pairs={d.nMonotone} self_lookups={d.nSelfLookups} split_nodes_seen={d.nSplits} random_splits_seen={d.nRandomSplits} item_children_seen={d.nItemChildren} routed_pairs={d.nRouted} max_items={d.maxItems} max_depth={d.maxDepth} failures={d.failures}"
+  s!"STAT records={d.nRecords} snapshots={d.nSnapshots} recovered={d.nRecovered} tolerance_checked={d.nTolChecked} ops={d.nOps} builds={d.nBuilds} builds_replayed={d.nBuildsReplayed} builds_loose={d.nBuildsLoose} cancelled_or_failed={d.nCancelled} dumps={d.nDumps} queries={d.nQueries} exact_checked={d.nExact} monotone_pairs={d.nMonotone} self_lookups={d.nSelfLookups} split_nodes_seen={d.nSplits} random_splits_seen={d.nRandomSplits} item_children_seen={d.nItemChildren} routed_pairs={d.nRouted} max_items={d.maxItems} max_depth={d.maxDepth} failures={d.failures}"
 
 end Driver
 end Arroy
